@@ -31,6 +31,26 @@ if ! (cd sim && $GO build -race -tags verif -modfile="$S/race.mod" -o "$S/verif-
 fi
 export GORACE="log_path=$S/racelog halt_on_error=0 exitcode=0 history_size=3"
 export VERIF_WORKERS=${VERIF_WORKERS:-14}
+case "${2:-}" in */cold-*|cold-*) export VERIF_RACE_COLD=1;; esac   # replay of a cold-start violation
+if [ "${VERIF_RACE_CMD:-check}" = check ]; then
+  # cold-start phase: one run per PROCESS (N processes, N runs), so that the first use of every
+  # package-level object of the library happens inside concurrent tasks. Its violations are real
+  # violations; its counts go into the evidence of the main phase.
+  N=64; [ "$tier" = thorough ] && N=512
+  coldout=$(VERIF_RACE_COLD=1 VERIF_RUNS_TOTAL=$N VERIF_WORKERS=$N VERIF_BUDGET_S=120 VERIF_REPLAY_DIR="$S/cold" "$S/verif-race" check -prop C20 -tier "$tier" 2>&1); coldcode=$?
+  coldv=$(echo "$coldout" | grep -c '^VIOLATION')
+  if [ $coldcode -eq 1 ] && [ $coldv -gt 0 ]; then
+    mkdir -p "${VERIF_REPLAY_DIR:-replays}"
+    for f in "$S"/cold/C20-*.json; do [ -f "$f" ] && cp "$f" "${VERIF_REPLAY_DIR:-replays}/cold-$(basename "$f")"; done
+    echo "$coldout" | grep -v '^check ' | sed "s#$S/cold/#${VERIF_REPLAY_DIR:-$PWD/replays}/cold-#"
+    echo "(cold-start phase: $coldv violation(s) in $N single-run processes)"
+    exit 1
+  elif [ $coldcode -ne 0 ]; then
+    echo "$coldout" | tail -5 >&2; echo "cold-start phase failed (exit $coldcode)" >&2; exit 2
+  fi
+  jq -n --argjson n $N '{cold_start_phase:{processes:$n, runs:$n, violations:0, note:"one run per process: first use of package-level state of the library happens inside concurrent tasks"}}' > "$S/extra.json"
+  export VERIF_EXTRA_COV="$S/extra.json"
+fi
 "$S/verif-race" ${VERIF_RACE_CMD:-check} -prop C20 -tier "$tier" "${@:2}"
 code=$?
 # keep replays usable: the replay command rebuilds the same way
